@@ -25,6 +25,14 @@ CLAIMS["C12"] = ("other", "call-graph effect analysis + loop progress-witness ru
     "of every loop on such a path has a progress witness, so a read cannot wait for another thread. Not decided: a numeric step bound.",
     "DESIGN.md §4 C12", TRUST + " seize enter/protect/Drop for Guard, the global allocator and user code (Hash/Ord/Eq/closures) are outside the property.")
 
+CLAIMS["C03"] = ("other", "interprocedural taint (unprotected guards) + must-pass-through ordering (unlink before retire) over MIR",
+    "Clauses, not the whole behaviour: (M1) no Guard::unprotected() value can reach, through any call chain, a retire that is followed by a "
+    "touch of the retired object or its lock (this is what makes collect/FromIterator safe); (M2) at each of the 25 retire sites an unlink "
+    "write on the object's own container precedes the retire on every value-flow path; (M3) immediate frees only on private/exclusively "
+    "owned objects; (M4) copy-loop/retire-loop agreement. Each is a necessary condition: breaking one yields a concrete use-after-free. "
+    "Not decided: that references stay *unchanged*, the collector's own correctness, value-level aliasing beyond copies.",
+    "DESIGN.md §4 C03", TRUST)
+
 NOT_APPLICABLE = {
     "C02": "Quantifies over all operation sequences x hashers x capacities and asserts equality of run-time values (return values, "
            "contents) with a reference map; no path-, type- or call-graph-shaped clause carries it. Its only structural clause "
